@@ -11,7 +11,7 @@ Definition superadditive (d : list N) : Prop :=
   forall i j, (i + j + 1 < length d)%nat -> nthN d i + nthN d j <= nthN d (i + j + 1).
 (* "realisable" prefixes (C12, C13, C18, C19) *)
 Definition realisable (d : list N) : Prop := wf_dmin d /\ superadditive d.
-(* the last two entries coincide (known class of C11) *)
+(* the last two entries coincide (the class of the former finding C11-plateau-curve; kept for the regression theorems) *)
 Definition plateau_end (d : list N) : Prop := (2 <= length d)%nat /\ nthN d (length d - 2) = nthN d (length d - 1).
 
 (* ArrivalCurvePrefix: positive horizon, first step at distance 1, distances strictly increasing
@@ -34,10 +34,11 @@ Fixpoint wf_ab (ab : AB) : Prop :=
   | SumAB l => (fix all (l : list AB) : Prop := match l with [] => True | a :: l' => wf_ab a /\ all l' end) l
   end.
 
-(* outside the known classes of C11: no plateau-ended Curve, no ArrivalCurvePrefix *)
+(* outside the known class of C11: no ArrivalCurvePrefix (plateau-ended Curves are covered since the repair of
+   Curve::number_arrivals at exact multiples of the last entry) *)
 Fixpoint steps_exact_class (ab : AB) : Prop :=
   match ab with
-  | CurveAB d => ~ plateau_end d
+  | CurveAB d => True
   | PrefixAB _ _ => False
   | Propagated J a => steps_exact_class a
   | SumAB l => (fix all (l : list AB) : Prop := match l with [] => True | a :: l' => steps_exact_class a /\ all l' end) l
